@@ -6,17 +6,16 @@ from props.b10util import parse_expanded as parse_out, show_out, coq_op, coq_uni
 ID = "C17"
 THEOREMS = ["C17_memory_refines_partial", "C17_memory_guard_tight", "C17_filesystem_refines_partial",
             "C17_backends_agree_partial", "C17_memory_refuted", "C17_filesystem_refuted_cas",
-            "C17_filesystem_refuted_packrefs", "C17_backends_agree_refuted"]
+            "C17_backends_agree_refuted"]
 MODEL_FILES = ["StorageAPI.v"]
 MODELLED = ("storage/memory/storage.go (ReferenceStorage incl. CheckAndSetReference, ObjectStorage, IndexStorage, ConfigStorage, "
             "ShallowStorage, ReflogStorage) as mem_step; storage/filesystem + dotgit at API level as fs_step: SetRef/setRefRwfs/"
-            "checkReferenceAndTruncate, Ref, Refs, RemoveRef/rewritePackedRefsWithoutRef, PackRefs, processLine over loose files "
+            "checkReferenceAndTruncate, Ref, Refs, RemoveRef (packed-refs first)/rewritePackedRefsWithoutRef, PackRefs (hash references only, symbolic ones stay loose), processLine over loose files "
             "(possibly empty) and packed-refs lines (possibly malformed); objects as a set (loose + packed), index/config/shallow/"
             "reflog files as values (Model/StorageAPI.v); spec: the abstract store (Spec/AStore.v st_step). One filesystem model "
             "for every Options value and object format. Not modelled: Module storers, CountLooseRefs, alternates, HEAD "
-            "special-casing in Refs(), directory/file conflicts between reference names, concurrent access, I/O errors; the order of the lines "
-            "PackRefs writes is modelled as name order (true on memfs; a real filesystem gives its directory order, which matters only after "
-            "packed-refs has been corrupted by a symbolic line: those histories run on memfs only)")
+            "special-casing in Refs(), directory/file conflicts between reference names, concurrent access, I/O errors; peeled (^) lines of packed-refs "
+            "(no storer call writes them)")
 TRUSTED = [
     "C-impl: every case is run on storage/memory and on storage/filesystem (memfs / osfs) under several option sets by harness/cmd/c17 and compared with Model/StorageAPI.c17_run",
     "oracle: Model/StorageAPI.c17_spec_run (the abstract store) evaluated in Coq on every case; every backend must answer every call, and the final snapshot, as the abstract store does",
@@ -157,8 +156,8 @@ class Main(Suite):
         buckets = [(4, "refs"), (3, "objs"), (2, "misc"), (2, "logs"), (4, "mixed"), (3, "targeted")]
         for _ in range(n):
             b = pick_weighted(rng, buckets)
-            # risky cases may contain the call patterns of the known findings (CAS on an absent
-            # reference, PackRefs while a loose symbolic reference exists); the others stay clear of them
+            # risky cases may contain the call pattern of the known finding (CAS on an absent reference);
+            # the others stay clear of it
             risky = rng.random() < 0.35
             g = Gen(rng, risky)
             ln = pick_weighted(rng, [(3, rng.randrange(1, 6)), (3, rng.randrange(5, 12)), (1, rng.randrange(12, 30))])
@@ -173,34 +172,11 @@ class Main(Suite):
                 ops = ops + [["reopen"]] + [["getref", k] for k in range(NN)] + [["iterrefs"], ["iterobjs", 0], ["getidx"], ["getcfg"], ["getshallow"]]
             cases.append({"bucket": b + ("-risky" if risky and b != "targeted" else ""), "backends": self.backends(rng),
                           "names": NAMES, "objs": OBJS, "ops": ops})
-        for c in cases:
-            if self.corrupting(c["ops"]):
-                c["backends"] = [be.replace("osfs", "memfs") for be in c["backends"]]
         return cases
 
     @staticmethod
-    def corrupting(ops):
-        """does the history call PackRefs while a symbolic reference may be loose?  From then on the answers of the
-        filesystem storer depend on the order of the lines PackRefs wrote, i.e. on the directory order of the
-        filesystem: name order on memfs (what the model assumes), arbitrary on a real one"""
-        sym = {}
-        for o in ops:
-            if o[0] in ("setref", "casnil"):
-                sym[o[1]] = o[2][0] == "s"
-            elif o[0] == "cas":
-                sym[o[1]] = sym.get(o[1], False) or o[2][0] == "s"
-            elif o[0] == "delref":
-                sym.pop(o[1], None)
-            elif o[0] == "packrefs":
-                if any(sym.values()):
-                    return True
-                sym = {}
-        return False
-
-    @staticmethod
     def defuse(ops):
-        """drop CAS calls on references an abstract store would not hold, and PackRefs calls made while a
-        symbolic reference may be loose"""
+        """drop CAS calls on references an abstract store would not hold"""
         refs, out = {}, []
         for o in ops:
             if o[0] in ("setref", "casnil"):
@@ -213,9 +189,6 @@ class Main(Suite):
                     continue
                 if (cur[0] == "s" and o[4][0] == "s") or cur == o[4]:
                     refs[o[1]] = o[2]
-            elif o[0] == "packrefs":
-                if any(v[0] == "s" for v in refs.values()):
-                    continue
             out.append(o)
         return out
 
@@ -334,10 +307,6 @@ class Main(Suite):
             upto = ops[:idx] if idx < len(ops) else ops
             if any(o[0] == "cas" for o in upto):
                 return "filesystem-failed-cas-leaves-empty-reference-file"
-        if err == ["err", "packed_refs_bad_format"]:
-            upto = ops[:idx + 1] if idx < len(ops) else ops
-            if any(o[0] == "packrefs" for o in upto):
-                return "filesystem-packrefs-writes-symbolic-reference-line"
         return None
 
     def finding_class(self, case, reason, reply):
